@@ -19,7 +19,8 @@ RULE = (
     "deletions, skips, clips and N bases, 1-2 target intervals, a read-filter configuration (MAPQ threshold on/next to realised "
     "values x the three keep flags) and threshold options drawn on/next to realised frequencies and depths. Run 1 "
     "(--ind-maf 0 --ind-mad 0 --min-ind 0) exposes the depth of all four nucleotides at every covered position; run 2 uses "
-    "the drawn thresholds. Oracle: independent CIGAR-walking base counts + the documented inclusion rule. non-trivial = a "
+    "the drawn thresholds; a second generator realises depth tables as reads (unequal depths, near-tied ALT alleles, --ind-maf "
+    "placed exactly on a realised count/depth whose float product (c/d)*d differs from c). Oracle: independent CIGAR-walking base counts + the documented inclusion rule. non-trivial = a "
     "target position covered by a read of each filterable kind that the configuration treats differently, and >=2 samples; "
     "distinct by decoded case"
 )
@@ -82,6 +83,12 @@ def case_strategy(draw):
                     "mad_realised": draw(st.integers(0, 2)) == 0, "mad_pick": draw(st.integers(0, 50))}}
 
 
+# count / depth pairs whose frequency is sensitive to the way the comparison is written in floating point
+# ((c/d)*d != c although c/d >= c/d holds trivially): thresholds placed exactly on such a realised frequency
+ROUNDING_PAIRS = {True: [(c, d) for d in range(5, 61) for c in range(2, d) if (c / d) * d > c],
+                  False: [(c, d) for d in range(5, 61) for c in range(2, d) if (c / d) * d < c]}
+
+
 @st.composite
 def table_case(draw):
     """Depth tables realised as reads: per sample a depth (shallow or deep) and, for each of 3 positions, counts of the four
@@ -94,12 +101,19 @@ def table_case(draw):
     seq = "".join(draw(st.lists(st.sampled_from(NUC), min_size=30, max_size=30)))
     start = 10
     bams = []
+    rounding = None if near_tie or draw(st.booleans()) else draw(st.sampled_from(ROUNDING_PAIRS[draw(st.booleans())]))
     for i in range(n_s):
         depth = draw(st.sampled_from([2, 3, 4, 5, 20, 40, 60]))
         if near_tie:
             depth = 40 + i  # depths d and d+1
+        if rounding and i == 0:
+            depth = rounding[1]
         cols = []
         for p in range(n_pos):
+            if rounding and i == 0 and p == 0:
+                alleles = list(draw(st.permutations(NUC)))
+                cols.append([alleles[0]] * (depth - rounding[0]) + [alleles[1]] * rounding[0])
+                continue
             if near_tie and p == 0:
                 a = 10
                 ref_b = seq[start]
@@ -127,10 +141,12 @@ def table_case(draw):
     spec = {"contigs": [{"name": "chr1", "seq": seq}], "snvs": [], "loci": [{"contig": "chr1", "start": start, "stop": start + n_pos, "name": "T0"}],
             "bams": bams, "samples": ["S%d" % i for i in range(n_s)]}
     cfg = {"mapq": 20, "keep_dup": False, "keep_qcfail": False, "keep_supp": False, "rg_field": "SM"}
-    return {"kind": "find_snvs", "spec": spec, "cfg": cfg,
-            "thr": {"ind_maf_pick": 0, "ind_maf_eps": 0, "ind_maf_grid": draw(st.sampled_from([0.05, 0.1, 0.2, 0.25, 0.34, 0.5] if not near_tie else [0.05, 0.1, 0.2])),
-                    "ind_mad": draw(st.integers(1, 6)), "min_ind": draw(st.integers(1, n_s)), "maf_pick": 0, "maf_on": False, "mad": 0,
-                    "mad_realised": False, "mad_pick": 0}}
+    thr = {"ind_maf_pick": 0, "ind_maf_eps": 0, "ind_maf_grid": draw(st.sampled_from([0.05, 0.1, 0.2, 0.25, 0.34, 0.5] if not near_tie else [0.05, 0.1, 0.2])),
+           "ind_mad": draw(st.integers(1, 6)), "min_ind": draw(st.integers(1, n_s)), "maf_pick": 0, "maf_on": False, "mad": 0,
+           "mad_realised": False, "mad_pick": 0}
+    if rounding:
+        thr.update({"ind_maf_grid": rounding[0] / rounding[1], "ind_mad": draw(st.integers(1, min(3, rounding[0]))), "min_ind": 1})
+    return {"kind": "find_snvs", "spec": spec, "cfg": cfg, "thr": thr, "table": "near_tie" if near_tie else ("rounding_sensitive_threshold" if rounding else "plain")}
 
 
 def cfg_args(cfg):
@@ -307,7 +323,7 @@ def check_case(ctx, case):
                             return problems
     finally:
         shutil.rmtree(wd, ignore_errors=True)
-        ctx.record(case, len(kinds) >= 2 and n_b >= 2, ["find_snvs", "n_bams=%d" % n_b] + ["has_" + k for k in sorted(kinds)])
+        ctx.record(case, len(kinds) >= 2 and n_b >= 2, ["find_snvs", "n_bams=%d" % n_b] + ["has_" + k for k in sorted(kinds)] + (["table:" + case["table"]] if case.get("table") else []))
     return problems
 
 
